@@ -251,9 +251,31 @@ func runC16(r *Report) {
 	// Tunnel.Start lies on a path to an error return (the state latch is won first)
 	if ts := r.need("R-C16-4", "internal/client/tunnel", "Tunnel.Start"); ts != nil {
 		nGo := 0
+		startsGoroutine := func(h *ssa.Function) bool {
+			for _, u := range samePkgReach(h, 1) {
+				found := false
+				Instrs(u, func(x ssa.Instruction) {
+					if _, ok := x.(*ssa.Go); ok {
+						found = true
+					}
+				})
+				if found {
+					return true
+				}
+			}
+			return false
+		}
 		Instrs(ts, func(in ssa.Instruction) {
-			g, ok := in.(*ssa.Go)
-			if !ok {
+			var g ssa.Instruction
+			if gg, ok := in.(*ssa.Go); ok {
+				g = gg
+			} else if hc, ok := in.(*ssa.Call); ok {
+				// the workers may be started by a helper (`t.spawnWorkers(...)`)
+				if h := hc.Common().StaticCallee(); h != nil && h.Pkg == ts.Pkg && len(h.Blocks) > 0 && h != ts && startsGoroutine(h) {
+					g = hc
+				}
+			}
+			if g == nil {
 				return
 			}
 			nGo++
@@ -271,6 +293,19 @@ func runC16(r *Report) {
 		if nGo < 1 { // alarm below 40% of the 2 sites confirmed by hand
 			r.Fail("R-C16-4", ts.Pos(), fmt.Sprintf("only %d goroutines started by Tunnel.Start found (3 confirmed by hand)", nGo), "Tunnel.Start", "floor-goroutines")
 		}
+		// the cancellable context is installed before the state is published as started: a Close that
+		// sees the started state must find a context to cancel, otherwise Start goes on to install a
+		// fresh context nobody cancels and the monitors outlive Close
+		isSetCtx := func(in ssa.Instruction) bool {
+			ci, ok := in.(ssa.CallInstruction)
+			return ok && CalleeOf(ci).Name == "SetCtx"
+		}
+		for _, cas := range Calls(ts, false, "atomic:Int32.CompareAndSwap", "atomic:Int64.CompareAndSwap", "atomic:Int32.Store") {
+			if _, f, _, ok := FieldOf(Recv(cas)); !ok || f != "state" {
+				continue
+			}
+			r.Ob("R-C16-4", CallPos(cas), !ReachesWithout(ts, cas.(ssa.Instruction), isSetCtx), "Tunnel.Start installs its context (SetCtx) before it publishes the started state", "Tunnel.Start", "context-before-started")
+		}
 	}
 	const dispPkg = "internal/core/dispose"
 	// ---- R-C16-1 the dispose latch -------------------------------------------------
@@ -282,12 +317,27 @@ func runC16(r *Report) {
 		} else {
 			c := rch[0]
 			notClosed := false
+			ls := ComputeLockSets(dc, nil)
+			dlock := r.lockFor("internal/core/dispose", "Dispose", "closed", "currentLock")
 			for _, ft := range Facts(c.Block()) {
 				if _, f, _, ok := FieldOf(ft.Cond); ok && f == "closed" && !ft.Pol {
 					notClosed = true
 				}
+				// an atomic flag: the deciding test is a Load made while the lock is held (a Load before the
+				// lock is only a fast path: two closers can both pass it)
+				if lc, ok := stripValue(ft.Cond).(*ssa.Call); ok && !ft.Pol && CalleeOf(lc).Is("atomic:Bool.Load") {
+					if _, f, _, ok := FieldOf(Recv(lc)); ok && f == "closed" && r.held(ls, lc, "internal/core/dispose", "Dispose", dlock) == "W" {
+						notClosed = true
+					}
+				}
 			}
 			setFirst := !ReachesWithout(dc, c.(ssa.Instruction), func(in ssa.Instruction) bool {
+				if sc, ok := in.(*ssa.Call); ok && CalleeOf(sc).Is("atomic:Bool.Store") {
+					if _, f, _, isF := FieldOf(Recv(sc)); isF && f == "closed" {
+						b, isC := ConstBool(Arg(sc, 0))
+						return isC && b
+					}
+				}
 				st, ok := in.(*ssa.Store)
 				if !ok {
 					return false
@@ -296,7 +346,6 @@ func runC16(r *Report) {
 				b, isC := ConstBool(st.Val)
 				return isF && f == "closed" && isC && b
 			})
-			ls := ComputeLockSets(dc, nil)
 			r.Ob("R-C16-1", CallPos(c), notClosed, "cleanup handlers run only on the not-yet-closed edge of the closed flag", "Dispose.Close", "latch-tested")
 			r.Ob("R-C16-1", CallPos(c), setFirst, "the closed flag is set before the handlers run (a re-entrant or concurrent Close sees it)", "Dispose.Close", "latch-set-first")
 			r.Ob("R-C16-1", CallPos(c), ls.Held(c.(ssa.Instruction), r.lockFor("internal/core/dispose", "Dispose", "closed", "currentLock")) == "W", "test, set and run happen under the lock of the closed flag (currentLock)", "Dispose.Close", "latch-locked")
@@ -416,19 +465,63 @@ func runC16(r *Report) {
 	if rt := r.need("R-C16-2", tunPkg, "Bridge.reportTrafficStats"); rt != nil {
 		ls := ComputeLockSets(rt, nil)
 		n := 0
-		Instrs(rt, func(in ssa.Instruction) {
+		isLast := func(in ssa.Instruction) bool {
 			ci, ok := in.(*ssa.Call)
 			if !ok || !CalleeOf(ci).Is("atomic:Int64.Load", "atomic:Int64.Store") {
-				return
+				return false
 			}
-			if _, f, _, ok := FieldOf(Recv(ci)); !ok || !strings.HasPrefix(f, "lastReported") {
-				return
+			_, f, _, ok := FieldOf(Recv(ci))
+			return ok && strings.HasPrefix(f, "lastReported")
+		}
+		rlock := r.lockFor("internal/protocol/session/tunnel", "Bridge", "", "reportMu")
+		var sites []ssa.Instruction // in reportTrafficStats: the accesses, or the calls of helpers that make them
+		for _, u := range samePkgReach(rt, 1) {
+			if u.Parent() != nil {
+				continue
 			}
-			n++
-			r.Ob("R-C16-2", ci.Pos(), r.held(ls, in, "internal/protocol/session/tunnel", "Bridge", "reportMu") == "W", "the last-reported totals are read and written inside one section of reportMu (the close handler and the final periodic report cannot both add the same delta)", "reportTrafficStats", "report-serialised:"+CalleeOf(ci).Name)
-		})
+			uls := lockSetsOf(u)
+			Instrs(u, func(in ssa.Instruction) {
+				if !isLast(in) {
+					return
+				}
+				n++
+				held := r.held(uls, in, "internal/protocol/session/tunnel", "Bridge", "reportMu") == "W"
+				if u == rt {
+					held = r.held(ls, in, "internal/protocol/session/tunnel", "Bridge", "reportMu") == "W"
+					sites = append(sites, in)
+				} else if !held {
+					held = callersHold(r.P, u, rlock, true, 2, map[*ssa.Function]bool{})
+				}
+				r.Ob("R-C16-2", in.Pos(), held, "the last-reported totals are read and written inside one section of reportMu (the close handler and the final periodic report cannot both add the same delta)", "reportTrafficStats", "report-serialised:"+CalleeOf(in.(*ssa.Call)).Name)
+			})
+			if u != rt {
+				Instrs(rt, func(in ssa.Instruction) {
+					if c, ok := in.(*ssa.Call); ok && c.Common().StaticCallee() == u {
+						has := false
+						Instrs(u, func(x ssa.Instruction) {
+							if isLast(x) {
+								has = true
+							}
+						})
+						if has {
+							sites = append(sites, in)
+						}
+					}
+				})
+			}
+		}
 		if n < 4 {
 			r.Fail("R-C16-2", rt.Pos(), "accesses to lastReported* not found", "reportTrafficStats", "floor")
+		}
+		// ... one section: the lock is not released between the first and the last of them
+		for i := range sites {
+			for j := range sites {
+				if i != j && (sites[i].Block() == sites[j].Block() && Before(sites[i], sites[j]) || sites[i].Block() != sites[j].Block() && CanReach(sites[i].Block(), sites[j].Block())) {
+					if ub := unlockBetween(sites[i], sites[j]); ub != nil {
+						r.Ob("R-C16-2", ub.Pos(), false, "reportMu is released between reading the last-reported totals and advancing them: the close handler and the final periodic report can both compute and add the same delta", "reportTrafficStats", "report-one-section")
+					}
+				}
+			}
 		}
 		for _, c := range Calls(rt, false, "UpdatePortMappingStats") {
 			r.Ob("R-C16-2", CallPos(c), r.held(ls, c.(ssa.Instruction), "internal/protocol/session/tunnel", "Bridge", "reportMu") == "W", "the report itself is issued inside the same section", "reportTrafficStats", "report-serialised:update")
